@@ -165,14 +165,12 @@ def run_random(sh, w, db, pool, spec):
         code = f"{q} -> {u}"
         case = {"kind": "random", "code": code, "q": q, "u": u}
         try:
-            es._ensure()
-            rs = w.batch([
-                {"op": "eval", "sid": es.sid, "code": f"let vf_u = {u}", "stmts": False},
-                {"op": "raw_global", "sid": es.sid, "names": ["vf_u"]},
-                {"op": "eval", "sid": es.sid, "code": code, "stmts": False},
-                {"op": "eval", "sid": es.sid, "code": f"({code}) -> ({src.text})", "stmts": False},
+            rs = es.run([
+                {"op": "eval", "code": f"let vf_u = {u}", "stmts": False},
+                {"op": "raw_global", "names": ["vf_u"]},
+                {"op": "eval", "code": code, "stmts": False},
+                {"op": "eval", "code": f"({code}) -> ({src.text})", "stmts": False},
             ])
-            es.n += 3
         except (WorkerDied, WorkerTimeout) as e:
             sh.violation(case, f"interpreter crashed/hung on `{code}`: {e}")
             w.restart()
